@@ -1,3 +1,4 @@
+import Driver.CachedProperty
 import Driver.Lru
 import Driver.Decorator
 import Driver.Adapters
@@ -17,6 +18,7 @@ def dispatch (j : Json) : Except String Json := do
   | "adapters" => Drv.Adapters.run j
   | "decorator" => Drv.Decorator.run j
   | "lru" => Drv.Lru.run j
+  | "cachedprop" => Drv.CachedProperty.run j
   | _ => throw s!"unknown machine {m}"
 
 partial def loop (h : IO.FS.Stream) (out : IO.FS.Stream) : IO Unit := do
